@@ -447,9 +447,12 @@ func (i *AgentIPC) deregisterClient(client *IPCClient) {
 // handleClient is a long running routine that handles a single client
 func (i *AgentIPC) handleClient(client *IPCClient) {
 	defer i.deregisterClient(client)
-	var reqHeader requestHeader
 	for {
-		// Decode the header
+		// Decode the header into a fresh value: the decoder leaves fields
+		// that are absent from the input untouched, so a reused header
+		// would inherit the command or sequence number of the previous
+		// request.
+		var reqHeader requestHeader
 		if err := client.dec.Decode(&reqHeader); err != nil {
 			if !i.isStopped() {
 				// The second part of this if is to block socket
